@@ -145,11 +145,15 @@ def sched_parts(pid: str, tier: str):
         from harness.graph import GCfg, run_c13
 
         # executor construction and sub-graph runs with debug nodes terminate as well (watchdog over the graph module)
-        parts.append(Part("debug-selections-terminate-N3", P(run_c13, GCfg(N=3, setup=False, activation=False, combined=False, reconf=False)), {"N": 3, "what": "executor creation and execution for every selection / debug placement returns"}, 900, 5, ["w_debug_ran"], GRAPH_FUNCS))
+        parts.append(Part("debug-selections-terminate-N3", P(run_c13, GCfg(N=3, setup=True, activation=False, combined=False, reconf=False)), {"N": 3, "what": "executor creation and execution for every selection / debug placement returns"}, 900, 5, ["w_debug_ran"], GRAPH_FUNCS))
         from harness.history import HCfg, run_c15
 
         # "never returns normally while a selected active node has not run": executor runs after a failed run
         parts.append(Part("executor-histories-len3", P(run_c15, HCfg(length=3, flavours="sa", ops="exec")), {"length": "3+1", "operations": "call, executor create (whole / target), run, failing run", "what": "an executor re-run after a failed run runs its complete selection or refuses"}, 900, 8, ["w_final_call", "w_rerun_after_failure|w_refused_after_failure"], HIST_FUNCS))
+        from harness.history import run_c09_after_failures
+
+        parts.append(Part("operations-after-failures-len2", P(run_c09_after_failures, HCfg(length=2, flavours="sa")), {"length": "2+2", "operations": "setup(), setup() with a failing setup node, call, failing call, executor().setup(), the same on a second DAG",
+                          "what": "every operation returns or raises - nothing blocks - and a later call still returns the plain evaluation", "deadline": "120 s wall clock per history"}, 900, 6, ["w_failed_operation", "w_operations_after_failure"], HIST_FUNCS))
         if not q:
             mk("whole-run-N3-two-faults-activation", Cfg(N=3, resources="tma", faults=2, activation=True, monitors=mons), base_req + ["w_fault"], 1500)
             mk("whole-run-N4", Cfg(N=4, resources="tma", max_async=1, faults=1, monitors=mons), base_req, 1500, 9)
